@@ -181,3 +181,12 @@ package syntax
 //@   pure
 //@   ensures result == (exists i int :: 0 <= i && i < len(list) && list[i] == input)
 //@   loop 1 invariant forall i int :: 0 <= i && i <= rangeindex && i < len(list) ==> list[i] != input
+
+// ---- the syntax tree is immutable once built ----
+// Nothing outside packages syntax and syntax/zh stores to a field or element of these types (store-site inventory,
+// re-checked on every run); evaluators may therefore rely on the tree being unchanged by any call they make.
+//@ immutable Statement Expression Assignable UnionMapList Node StmtBase ExprBase Program NodeList VarDeclareStmt EmptyStmt
+//@ immutable VDAssignPair BranchStmt WhileLoopStmt IterateStmt ImportStmt BreakStmt ContinueStmt StmtBlock ExecBlock
+//@ immutable FunctionDeclareStmt CatchBlockPair FunctionReturnStmt ClassDeclareStmt PropertyDeclareStmt ThrowExceptionStmt
+//@ immutable PrimeExpr ID String ArrayExpr HashMapExpr HashMapKeyValuePair VarAssignExpr ObjNewExpr FuncCallExpr MemberExpr
+//@ immutable MemberMethodExpr LogicExpr ArithExpr
